@@ -75,7 +75,9 @@ TRUSTED = [
     "switches inside a single C-level operation, are outside the model. Bytecode-level preemption is exercised "
     "by the sweep (granularity 'opcode') but not proved separately",
     "asyncio: call_soon_threadsafe appends to a FIFO that only the loop thread pops; callbacks run to completion "
-    "on the loop thread (the harness pops loop._ready by hand instead of running the selector)",
+    "on the loop thread (the harness pops loop._ready by hand instead of running the selector); timers are observed "
+    "at the loop boundary (handles returned by call_later / call_at, attributed to the connection found in the "
+    "scheduling frames) and expire by running the still-scheduled, uncancelled handles as _run_once does",
     "the deterministic scheduler/tracer of this harness (sys.settrace line/opcode events, token passing), the "
     "generators, harness/ref/race.py (oracle and EVENT parser)",
 ]
@@ -196,11 +198,62 @@ class Env:
             proto.connection_made(tr)
             proto.handler.is_encrypted = True  # a verified session (the cipher itself is C04/C05's subject)
             self.conns[c] = (proto, tr)
+        # Timers are observed where the code hands them to the loop (the harness owns the loop), not in
+        # the protocol object: whatever private representation the connection keeps, a coalescing timer
+        # exists iff call_later / call_at returned a handle that is still scheduled and not cancelled.
+        self.timers: Dict[int, List[Any]] = {c: [] for c in conns}
+        self.unowned_timers: List[Any] = []
+        self.flush_cb: Dict[int, Tuple[Any, tuple]] = {}  # what each connection gives its timer to call
+        for meth in ("call_later", "call_at"):
+            self._wrap_timer_api(meth)
+
+    def _wrap_timer_api(self, meth: str):
+        orig = getattr(self.loop, meth)
+
+        def scheduling(*args, **kw):
+            h = orig(*args, **kw)
+            owner = self._owner_of_call(args[1] if len(args) > 1 else None)
+            (self.timers[owner] if owner is not None else self.unowned_timers).append(h)
+            if owner is not None and len(args) > 1:
+                self.flush_cb[owner] = (args[1], tuple(args[2:]))  # (a cancelled handle forgets its callback)
+            return h
+
+        setattr(self.loop, meth, scheduling)
+
+    def _owner_of_call(self, callback) -> Optional[int]:
+        """The connection on whose behalf a timer is being scheduled: the protocol object found in
+        the calling frames (any local), else the object the callback is bound to."""
+        protos = {id(p): c for c, (p, _) in self.conns.items()}
+        f = sys._getframe(2)
+        depth = 0
+        while f is not None and depth < 12:
+            for v in f.f_locals.values():
+                c = protos.get(id(v))
+                if c is not None:
+                    return c
+            f = f.f_back
+            depth += 1
+        return protos.get(id(getattr(callback, "__self__", None)))
+
+    def due_timers(self, c: Optional[int]) -> List[Any]:
+        hs = self.unowned_timers if c is None else self.timers.get(c, [])
+        live = [h for h in hs if getattr(h, "_scheduled", False) and not h.cancelled()]
+        return sorted(live, key=lambda h: h.when())
+
+    def fire_timer(self, h):
+        """What the loop does with a due TimerHandle (BaseEventLoop._run_once)."""
+        try:
+            self.loop._scheduled.remove(h)
+            heapq.heapify(self.loop._scheduled)
+        except ValueError:
+            pass
+        h._scheduled = False
+        if not h.cancelled():
+            h._run()
 
     def close(self):
-        for proto, _ in self.conns.values():
-            h = find_timer(proto)
-            if h is not None:  # do not leave timers behind
+        for hs in list(self.timers.values()) + [self.unowned_timers]:
+            for h in hs:  # do not leave timers behind
                 h.cancel()
         self.loop.close()
 
@@ -284,14 +337,6 @@ def value_attr() -> Optional[str]:
     for k, v in SHARED_ATTRS.items():
         if v == "value":
             return k
-    return None
-
-
-def find_timer(proto):
-    """The connection's armed coalescing timer, whatever the attribute is called."""
-    for v in vars(proto).values():
-        if isinstance(v, asyncio.TimerHandle):
-            return v
     return None
 
 
@@ -397,6 +442,7 @@ class Exec:
         self.w_in_update = False
         self.overlap = False           # a controller write overlapped a worker update / undrained hand-off
         self.anomalies: List[str] = []
+        self.timer_problem: Optional[str] = None
         self.timeline: List[Dict[str, Any]] = []
         self.worker_error: Optional[BaseException] = None
         self.worker_outcomes: List[str] = []
@@ -593,17 +639,19 @@ class Exec:
                 self.sync("L")
                 self.in_write = False
         elif name == "fire":
-            # the coalescing timer expires: what the loop does with a due TimerHandle
-            proto = env.conns[op[1]][0]
-            h = find_timer(proto)
-            if h is not None and getattr(h, "_scheduled", False) and not h.cancelled():
-                try:
-                    env.loop._scheduled.remove(h)
-                    heapq.heapify(env.loop._scheduled)
-                except ValueError:
-                    pass
-                h._scheduled = False
-                h._run()
+            # the 0.5 s window of this connection has elapsed: every timer it scheduled and did not
+            # cancel is due and is run the way the loop runs a due TimerHandle
+            for h in env.due_timers(op[1]):
+                env.fire_timer(h)
+            if env.unowned_timers:
+                # a timer that could not be attributed to a connection: never let that turn into an
+                # oracle verdict — let it expire too, and report the tie as not established
+                self.timer_problem = (
+                    "a timer was handed to the loop that could not be attributed to a connection "
+                    "(no protocol object in the scheduling frames, callback not bound to one)"
+                )
+                for h in env.due_timers(None):
+                    env.fire_timer(h)
         elif name == "drain":
             ready = env.loop._ready
             while True:
@@ -614,7 +662,16 @@ class Exec:
                 self.log.append("L:W:queue")
                 h._run()
         elif name == "flush":
-            env.conns[op[1]][0]._send_events()
+            # the connection's flush routine called directly (what an immediate event does): it is the
+            # callback the connection gives its coalescing timer, whatever it is called
+            cb = env.flush_cb.get(op[1])
+            if cb is not None:
+                cb[0](*cb[1])
+            else:
+                # nothing was ever queued on this connection: the flush has nothing to do
+                fl = getattr(env.conns[op[1]][0], "_send_events", None)
+                if fl is not None:
+                    fl()
         else:
             raise ValueError(f"unknown op {op}")
         self.sync("L")
@@ -769,6 +826,9 @@ def run_case(case: Dict[str, Any]) -> Dict[str, Any]:
         if _TIE_PROBLEM:
             r["tie_problem"] = _TIE_PROBLEM
             return r
+        if r.get("timer_problem"):
+            r["tie_problem"] = r["timer_problem"]
+            return r
         if not r["missing"]:
             return r
         if prev is not None and prev == r["impl"]["trace"]:
@@ -829,6 +889,18 @@ def _run_case_once(case: Dict[str, Any]) -> Dict[str, Any]:
                 )
             )
 
+    # A flush mechanism the harness cannot observe must never become an oracle verdict about events.
+    timer_problem = ex.timer_problem
+    missed = "C20:subscriber-missed-final-value"
+    if timer_problem is None and any(v[0] == missed for v in verdicts) and not any(env.timers.values()) \
+            and not env.unowned_timers:
+        timer_problem = (
+            "events were queued but no timer was ever handed to the loop through call_later / call_at in this "
+            "run: the harness cannot observe how this code schedules its flush"
+        )
+    if timer_problem is not None:
+        verdicts = [v for v in verdicts if v[0] != missed]
+
     # ---- model line ------------------------------------------------------------------------------
     wid = iter(ex.write_ids)
     wups = []
@@ -865,7 +937,7 @@ def _run_case_once(case: Dict[str, Any]) -> Dict[str, Any]:
     return {
         "line": line, "impl": impl_obs, "verdicts": verdicts, "interleaved": interleaved,
         "yields": dict(ex.yields), "yield_info": ex.yield_info, "sched_part": sched_part, "scale": scale,
-        "n_ep": n_ep, "overlap": ex.overlap, "missing": missing,
+        "n_ep": n_ep, "overlap": ex.overlap, "missing": missing, "timer_problem": timer_problem,
     }
 
 
